@@ -477,7 +477,7 @@ fn snapshot(sh: &Shared, observer: Option<&QueuingMetricSink>, label: &'static s
     let acks = sh.prod.lock().unwrap().iter().filter(|e| e.what == "emit" && matches!(e.res, ApiRes::Ok(_))).count() as u64;
     let log = sh.log.lock().unwrap();
     let sink_enters = log.iter().filter(|e| matches!(e, Ev::SinkEnter { .. })).count() as u64;
-    let panics_fired = log.iter().filter(|e| matches!(e, Ev::SinkExit { outcome: SinkOutcome::Panic, .. })).count() as u64;
+    let panics_fired = log.iter().filter(|e| matches!(e, Ev::SinkExit { outcome: SinkOutcome::Panic, .. } | Ev::FlushPanic { .. })).count() as u64;
     Snapshot { counters, acks, sink_enters, panics_fired, tasks: kernel::task_table(), label }
 }
 
@@ -883,17 +883,8 @@ impl Engine for E3 {
         out.schedule_hash = hash_schedule(&r.schedule);
         out.schedule = r.schedule.clone();
         if let Some(e) = &r.error {
-            // A run that does not come to rest is normally a harness error. One shape is a verdict:
-            // every handle is gone (main sits in its final settling wait) and background threads
-            // keep being started although there is nothing left for them to do - more of them than
-            // there were metrics, and each restart of a correct worker consumes one.
-            let total_emits = case.plan.len();
-            let anon = r.tasks.iter().filter(|t| t.anon).count();
-            let main_settling = r.tasks.first().map(|t| t.label == "settle: final").unwrap_or(false);
-            if e.contains("step cap") && main_settling && anon > total_emits + 3 {
-                out.violate(&["C09"], "queue.worker-respawn-loop", format!("after the last handle was dropped {anon} background threads were started for {total_emits} metrics and the run never came to rest: the worker is restarted again and again with nothing left to do ({e})"));
-                return out;
-            }
+            // a run that does not come to rest is a harness error, never a verdict (the respawn
+            // loop of a poisoned wrapped sink is bounded by the sink itself, see ScriptedSink::flush)
             out.harness_error = Some(e.clone());
             return out;
         }
@@ -1205,16 +1196,18 @@ fn judge(case: &QCase, main: &Option<Obs>, end_tasks: &[TaskInfo], out: &mut Out
     // occupancy counted in METRICS (entries of any other kind a variant may put on the same channel
     // do not make the queue "hold its capacity"): accepted and not yet taken off by the worker
     let metric_occ: Vec<(u64, usize)> = {
-        let mut occ: i64 = 0;
+        // per channel (a variant may have more than one channel that carries strings); the entry
+        // of an event is the occupancy of the fullest channel after it
+        let mut occ: std::collections::BTreeMap<u64, i64> = std::collections::BTreeMap::new();
         let mut v = Vec::new();
         for c in &obs.chan {
             let is_send = c.op == "try_send" || c.op == "send";
             if is_send && c.ok && c.payload.starts_with("S:") {
-                occ += 1;
+                *occ.entry(c.chan).or_insert(0) += 1;
             } else if c.op == "recv" && c.ok && c.payload.starts_with("S:") {
-                occ -= 1;
+                *occ.entry(c.chan).or_insert(0) -= 1;
             }
-            v.push((c.step, occ.max(0) as usize));
+            v.push((c.step, occ.values().copied().max().unwrap_or(0).max(0) as usize));
         }
         v
     };
@@ -1266,7 +1259,7 @@ fn judge(case: &QCase, main: &Option<Obs>, end_tasks: &[TaskInfo], out: &mut Out
         // few per wait for such a lock; a loop that polls for queue room needs unboundedly many
         // (a failed compare-exchange of a lock-free retry loop costs a step or two as well; a loop
         // that polls with plain loads gets no such allowance)
-        if e.steps > 12 + 8 * e.lock_waits + 3 * e.cas_failures {
+        if e.steps > 12 + 8 * e.lock_waits + 3 * e.cas_failures.min(8) {
             out.violate(&["C10"], "queue.emit-not-prompt", format!("emit {} took {} scheduling steps of its own task ({} waits for a lock, {} failed compare-exchanges)", e.s, e.steps, e.lock_waits, e.cas_failures));
         }
         // H: whatever the wrapped sink answers stays on the background thread
@@ -1479,11 +1472,15 @@ fn judge(case: &QCase, main: &Option<Obs>, end_tasks: &[TaskInfo], out: &mut Out
     // worker is restarted again and again with nothing left to do, and with a sink that stays
     // poisoned it would never terminate
     {
-        let fp: Vec<usize> = obs.log.iter().filter_map(|e| if let Ev::FlushPanic { task } = e { Some(*task) } else { None }).collect();
-        if !fp.is_empty() {
+        let all_fp = obs.log.iter().filter(|e| matches!(e, Ev::FlushPanic { .. })).count();
+        if all_fp > 0 {
             out.probe("poisoned_flush_reached");
         }
-        if fp.len() >= 8 {
+        // only those after the last metric was handed over (nothing left to do), and only when
+        // every handle is gone (the worker is supposed to terminate)
+        let last_enter = obs.log.iter().rposition(|e| matches!(e, Ev::SinkEnter { .. })).map(|i| i + 1).unwrap_or(0);
+        let fp: Vec<usize> = obs.log[last_enter..].iter().filter_map(|e| if let Ev::FlushPanic { task } = e { Some(*task) } else { None }).collect();
+        if obs.all_dropped && fp.len() >= 8 {
             out.violate(&["C09", "C11"], "queue.worker-respawn-loop", format!("the wrapped sink's flush() was called and panicked {} times in a row on background tasks {:?}: the worker is restarted again and again with nothing left to do and would never terminate", fp.len(), fp));
         }
     }
